@@ -296,5 +296,5 @@ def check(repo, rep):
                        'AudioParameterError; a*n = data*n with TypeError for non-int; == compares {data, rate, width, channels}; frozen dataclass and object.__setattr__ only inside __post_init__ '
                        '(who-may-call census over the package); effect analysis: no operator writes a field of an operand or module state; check_audio_data(self.data, ...) unconditionally at construction; '
                        'make_silence = b"\\0" * (round(d*rate)*width*channels); division: TypeError guards, pieces are contiguous slices self[onset:offset] from 0 with length len//n or len//n+1. '
-                       'NOT decided: the piece count min(n, len) and the +-1 distribution (loop arithmetic with a product n*q outside the linear domain).')
+                       'Positive divisors are accepted (guard conditions evaluated for n = 1, 2, 7). NOT decided: the piece count min(n, len) and the +-1 distribution (loop arithmetic with a product n*q outside the linear domain).')
     rep.assumptions = ['bytes +, * and join have their Python semantics', 'C16 (slicing) for the pieces of a division']
